@@ -9,7 +9,7 @@ Definition zlen {A} (a : list A) : Z := Z.of_nat (length a).
 
 (* ---------------------------------------------------------------------------------------- *)
 (* symmetric_moving_average(a, wing_width)                                                   *)
-(*   asum = a[:wing_width].sum(); count = wing_width                                         *)
+(*   asum = a[:wing_width].sum(); count = min(wing_width, n)                                 *)
 (*   for i in range(n): just_out = i - wing_width - 1; if just_out >= 0: count -= 1; ...     *)
 (*                      just_in = i + wing_width;      if just_in < n:   count += 1; ...     *)
 (*                      out[i] = asum / count                                                *)
@@ -32,4 +32,4 @@ Fixpoint sma_loop {T} (a : list Z) (w n : Z) (todo : list T) (i asum count : Z) 
 
 Definition sma (a : list Z) (w : Z) : list (Z * Z) :=
   if w =? 0 then map (fun x => (x, 1)) a
-  else sma_loop a w (zlen a) a 0 (zsum (firstn (Z.to_nat w) a)) w.
+  else sma_loop a w (zlen a) a 0 (zsum (firstn (Z.to_nat w) a)) (Z.min w (zlen a)).
